@@ -597,7 +597,12 @@ def register(reg):
             if it.ctx.branch(it.truth_term(env.vars['fnd'])):
                 attrs = {'specials_chars': it.fresh_str('stored_specials_chars')} if kind == 'specials' else {}
                 return AbsVal(it.ctx.fresh_int('spec'), 'spec', attrs=attrs, methods=SPEC_METHODS)
-            return env.vars['self'].fields[unk]
+            u = env.vars['self'].fields[unk]
+            if isinstance(u, AbsVal) and 'truth' in u.attrs:
+                # a database whose unknown-spec is "set or not" (one abstract value with an unknown truth value): not set means None
+                if not it.ctx.branch(it.truth_term(u)):
+                    return None
+            return u
         DD = "D(self, '%s', cat_at(self, %%s))" % kind
         c = reg.add(Contract(
             DB + '.' + meth, setup=setup, requires=DB_INV,
@@ -971,7 +976,18 @@ def search():
         f = db.filtered_context(exclude_categories=["C0"])
         e2 = e.extended_with(macros=[MacroSpec("b")], specials=[SpecialsSpec("``")])
         f2 = f.filtered_context(keep_which=["macros"])
-        for x, w in ((e, "extended"), (f, "filtered"), (e2, "extended twice"), (f2, "filtered twice")):
+        derived = [(e, "extended"), (f, "filtered"), (e2, "extended twice"), (f2, "filtered twice")]
+        # composition of derivations: filter after extend (the extension made an internally named category), extend after filter
+        try:
+            ef = e2.filtered_context(exclude_categories=["C1"])
+            f.freeze()
+            fe = f.extended_with(macros=[MacroSpec("c")])
+        except Exception as ex:
+            return what + ": filtering an extended database / extending a filtered one raised %r" % (ex,)
+        if ef.categories() != [c for c in e2.categories() if c != "C1"]:
+            return what + ": filtered_context(exclude C1) of categories %r gives %r" % (e2.categories(), ef.categories())
+        derived += [(ef, "extended twice, then filtered"), (fe, "filtered, then extended")]
+        for x, w in derived:
             m = check_db(x, what + " then " + w)
             if m: return m
         if before != [(n, db.get_macro_spec(n)) for n in "abc"]:
